@@ -128,12 +128,23 @@ SetDvStep(e) ==
     IN /\ fails' = fails \cup Tag(c)
        /\ UNCHANGED <<dvs, enc, alive, raw, outs, insts, reached, rows, rowarchs, drift, spaceok>>
 
+\* ---- a decode while one variable is fixed (its own processor): inactive entries are canonical for THEIR variable --------
+FixDecStep(e) ==
+    LET c == IF e.err # "" THEN {}          \* an empty restriction may raise (C15 judges fix / free semantics)
+             ELSE (IF Len(e.rx) = Len(e.dvs) /\ Len(e.ract) = Len(e.dvs) THEN {} ELSE {"C03.corrected_vector_length_with_fixed_variable"})
+                  \cup (IF Len(e.rx) = Len(e.dvs) /\ Len(e.ract) = Len(e.dvs) /\ ~Canonical(e.dvs, e.rx, e.ract)
+                        THEN {"C07.inactive_not_canonical", "C16.absent_node_not_canonical_with_fixed_variable"} ELSE {})
+                  \cup (IF Len(e.rx) = Len(e.dvs) /\ ~InRange(e.dvs, e.rx) THEN {"C03.corrected_vector_out_of_range"} ELSE {})
+    IN /\ fails' = fails \cup Tag(c)
+       /\ UNCHANGED <<dvs, enc, alive, raw, outs, insts, reached, rows, rowarchs, drift, spaceok>>
+
 Step == /\ l <= N
         /\ LET e == Ev IN
              CASE e.e = "New" -> NewStep(e)
                [] e.e \in {"Dec", "DecRow"} -> DecStep(e)
                [] e.e = "Enum" -> EnumStep(e)
                [] e.e = "SetDv" -> SetDvStep(e)
+               [] e.e = "FixDec" -> FixDecStep(e)
                [] OTHER -> /\ fails' = fails \cup Tag({"machinery.unknown_event"})
                            /\ UNCHANGED <<dvs, enc, alive, raw, outs, insts, reached, rows, rowarchs, drift, spaceok>>
         /\ l' = l + 1
